@@ -381,6 +381,9 @@ func (c *copier) copy(ctx context.Context, src, srcComponents, target string, ov
 			return nil
 		}
 
+		if targetFi != nil {
+			c.forgetLinkSources(target)
+		}
 		if err := ensureEmptyFileTarget(target); err != nil {
 			return err
 		}
@@ -499,7 +502,20 @@ func (c *copier) removeTargetIfNeeded(target string, srcFi, targetFi os.FileInfo
 		// directories are merged, not replaced
 		return nil
 	}
+	c.forgetLinkSources(target)
 	return os.RemoveAll(target)
+}
+
+// forgetLinkSources drops the recorded first copies of hard-linked files at or
+// below path. The copier is about to replace what is there, and later links to
+// such a file must not name the replacement.
+func (c *copier) forgetLinkSources(path string) {
+	prefix := path + string(filepath.Separator)
+	for inode, p := range c.inodes {
+		if p == path || strings.HasPrefix(p, prefix) {
+			delete(c.inodes, inode)
+		}
+	}
 }
 
 // Delayed creation of parent directories when a file or dir matches an include
